@@ -179,9 +179,11 @@ func RunQB(s *simrt.Sim, a *harness.Args, r *harness.Result) {
 	})
 	res := s.Run(w.horizon(), nil)
 	if res == simrt.Budget {
-		simrt.Harnessf("run did not quiesce; parked=%v", s.ParkedKeys())
+		w.violateHang(fmt.Sprintf("step budget exhausted; parked=%v", s.ParkedKeys()))
 	}
-	w.closeLive()
+	if w.hang == "" {
+		w.closeLive()
+	}
 	for _, p := range s.Panics() {
 		if p.Func != "HARNESS" {
 			s.Violate(a.Prop+"/panic/"+p.Func, "task %s panicked: %s", p.Task, p.Value)
@@ -189,6 +191,7 @@ func RunQB(s *simrt.Sim, a *harness.Args, r *harness.Result) {
 	}
 	if len(s.Violations()) == 0 && a.Prop == "C01" {
 		w.oracleQB(mx, plan)
+		w.settleHang(0)
 	}
 	kind := "smtp"
 	if lmtp {
